@@ -646,16 +646,22 @@ def visitAll (ord : List Nat) : List Nat → List Nat
   | [] => ord
   | k :: ks => visitAll (if ord.contains k then ord else ord ++ [k]) ks
 
-/-- `for elem in elements:` with `elements` growing; `i` is the position of the iteration. -/
-def bfs (h : Graph) : Nat → Nat → List Nat → List Nat
+/-- `for elem in elements:` with `elements` growing; `i` is the position of the iteration.
+Generic in how the references of a location are obtained (`refs`), so that it serves every
+payload type (binary values, text values). -/
+def bfsOn (refs : Nat → List Nat) : Nat → Nat → List Nat → List Nat
   | 0, _, ord => ord
   | f + 1, i, ord =>
     match ord[i]? with
     | none => ord
-    | some loc => bfs h f (i + 1) (visitAll ord (h.refsAt loc))
+    | some loc => bfsOn refs f (i + 1) (visitAll ord (refs loc))
 
-/-- `elements` after the loop, as locations: position = assigned index. -/
-def number (h : Graph) (root : Nat) : List Nat := bfs h (h.elems.length + 1) 0 [root]
+/-- `elements` after the loop, as locations: position = assigned index (`n` locations). -/
+def numberOn (refs : Nat → List Nat) (n root : Nat) : List Nat := bfsOn refs (n + 1) 0 [root]
+
+def bfs (h : Graph) : Nat → Nat → List Nat → List Nat := bfsOn h.refsAt
+
+def number (h : Graph) (root : Nat) : List Nat := numberOn h.refsAt h.elems.length root
 
 /-- `elem_to_ind[...]`. -/
 def posOf (ord : List Nat) (k : Nat) : Nat := ord.idxOf k
